@@ -51,7 +51,8 @@ let run (_prefix : string) (cfg : config) (parts : string list) (_src : string)
           let plus = plus_enabled cfg in
           let m = modified_of ast_in ast_out in
           let ok = erase_ok vp cfg.c_prefix_stmts plus m i o in
-          if ok then [ ("erase_ok", JB true) ]
+          let dups = ("dup_effects", JL (List.map (fun (lo, hi) -> JL [ JI (int_of_n lo); JI (int_of_n hi) ]) (dup_effects vp i o))) in
+          if ok then [ ("erase_ok", JB true); dups ]
           else begin
             let a = strip_parens (lower plus (erase vp cfg.c_prefix_stmts m o)) and b = strip_parens (lower plus i) in
             let path = match first_diff_nospan a b with Some p -> List.map int_of_nat p | None -> [] in
@@ -59,7 +60,7 @@ let run (_prefix : string) (cfg : config) (parts : string list) (_src : string)
               | [], _ -> n
               | i :: p', Node (_, cs) -> (try at (List.nth cs i) p' with _ -> n) in
             let parent = match List.rev path with _ :: r -> List.rev r | [] -> [] in
-            [ ("erase_ok", JB false);
+            [ ("erase_ok", JB false); dups;
               ("erase_diff_path", JL (List.map (fun i -> JI i) path));
               ("erase_diff_erased", JS (trunc (sexp_string (at a parent))));
               ("erase_diff_input", JS (trunc (sexp_string (at b parent)))) ]
